@@ -653,7 +653,7 @@ static void runStep(Session& S, const Case& c, const Step& st, size_t idx) {
     }
     if (optb(o, "adopt", false) && (S.dom || S.ls) && doc) {
         DOMDocument* ad = S.dom ? S.dom->adoptDocument() : 0;
-        if (ad) S.adopted.push_back(ad);
+        if (ad) { S.adopted.push_back(ad); r.d.side("ADOPT\t" + itos((long long)(S.adopted.size() - 1))); }
     }
     if (optb(o, "redump_adopted", false)) {
         for (size_t i = 0; i < S.adopted.size(); i++) { r.d.ev("ADOPTED\t" + itos((long long)i)); dumpDOM(S.adopted[i], r.d); }
